@@ -14,6 +14,7 @@ encoding; its behaviours are replayed on the real LLDP sender and receiver.
 import collections
 import concurrent.futures
 import copy
+import multiprocessing
 import re
 
 from engine import tlc, core, tracecheck
@@ -30,27 +31,60 @@ _bad = re.compile(r'^<<"BAD", (\d+), (\d+), "([^"]+)">>')
 
 
 # --------------------------------------------------------------------------
-def model_check(ctx, quick):
+def model_check_start(ctx, quick):
+  """start the TLC runs of Topo.tla in background threads (they are separate
+  JVMs); model_check_finish() collects them.  The conformance phases run
+  meanwhile."""
   jobs = [("Topo dynamic: 2 switches, cable + one-way wire", "MC_one.cfg", DYN_ACTIONS),
           ("Topo static: all sub-multigraphs x all permitted forests (parallel / triangle / self-loop nets)",
-           "MC_static_small.cfg", ["FloodNext"])]
+           "MC_static_small.cfg", [("FloodNext",)])]
   if not quick:
-    # (MC_par.cfg / MC_chain.cfg / MC_tri16.cfg: larger dynamic nets, 5-10 min each, run by hand; see notes/C19.md)
-    jobs += [("Topo dynamic: self-loop cable + neighbour", "MC_loop.cfg", DYN_ACTIONS),
-             ("Topo static: 3 switches, 2 cables per pair (4096 wirings)", "MC_static_k3x2.cfg", ["FloodNext"]),
-             ("Topo static: 4 switches, 1 cable per pair (4096 wirings)", "MC_static_k4.cfg", ["FloodNext"])]
+    # (MC_chain.cfg / MC_tri16.cfg: larger dynamic nets, 5-10 min each, run by hand; see notes/C19.md)
+    jobs += [("Topo dynamic: 2 switches, 2 parallel cables", "MC_par.cfg", DYN_ACTIONS),
+             ("Topo dynamic: self-loop cable + neighbour", "MC_loop.cfg", DYN_ACTIONS),
+             ("Topo static: 3 switches, 2 cables per pair (4096 wirings)", "MC_static_k3x2.cfg", [("FloodNext",)]),
+             ("Topo static: 4 switches, 1 cable per pair (4096 wirings)", "MC_static_k4.cfg", [("FloodNext",)])]
 
+  # A child process runs the JVMs (one thread each) so that this process stays
+  # single-threaded while the engine forks its replay / driver workers.
+  mp = multiprocessing.get_context("fork")
+  rx, tx = mp.Pipe(duplex=False)
+  p = mp.Process(target=_mc_child, args=(jobs, quick, tx))
+  p.start()
+  tx.close()
+  return p, rx, jobs
+
+
+def _mc_child(jobs, quick, tx):
   def one(job):
     name, cfg, acts = job
-    r = tlc.run(SPEC, "MCTopo", cfg, tag="C19", workers=(None if quick else 4), timeout=1500)
-    return job, r
+    try:
+      return ("ok", tlc.run(SPEC, "MCTopo", cfg, tag="C19", workers=(8 if quick else 4), timeout=1500))
+    except Exception as e:
+      return ("err", "%s: %s" % (cfg, e))
   with concurrent.futures.ThreadPoolExecutor(max_workers=len(jobs)) as ex:
-    results = list(ex.map(one, jobs))
-  for (name, cfg, acts), r in results:
+    res = list(ex.map(one, jobs))
+  for k, r in res:
+    if k == "ok":
+      r.stdout = r.stdout[-4000:]
+  tx.send(res)
+  tx.close()
+
+
+def model_check_finish(ctx, started):
+  p, rx, jobs = started
+  try:
+    res = rx.recv()
+  except EOFError:
+    raise tlc.TLCError("model checking child died")
+  finally:
+    p.join(30)
+  for (name, cfg, acts), (k, r) in zip(jobs, res):
+    if k != "ok":
+      raise tlc.TLCError(r)
     if r.violated:
       raise tlc.TLCError("spec violates its own property %s (%s):\n%s" % (r.violated, cfg, r.error_trace))
     for alts in acts:
-      alts = (alts,) if isinstance(alts, str) else alts
       if sum(r.coverage.get(a, (0, 0))[1] for a in alts) == 0:
         raise tlc.TLCError("vacuous model run %s: action never taken: %s (coverage: %s)"
                            % (cfg, alts[0], sorted(r.coverage)))
@@ -389,8 +423,18 @@ def run(ctx):
       return v
   tm = _T()
   phase = ctx.notes.setdefault("phase_wall_cpu_s", {})
-  model_check(ctx, quick)
-  phase["model_check"] = tm.take()
+  mc = model_check_start(ctx, quick)
+  try:
+    _conformance(ctx, quick, phase, tm)
+  except BaseException:
+    # the first error is what counts; let the JVMs finish (they end on their own), do not wait
+    raise
+  model_check_finish(ctx, mc)
+  phase["model_check_wait"] = tm.take()
+  ctx.exhaustive = False
+
+
+def _conformance(ctx, quick, phase, tm):
   probe_part(ctx, quick)
   phase["probe"] = tm.take()
 
@@ -401,8 +445,8 @@ def run(ctx):
   for v in (0, 1, 2):
     static += gen.all_static(2, seed=seed, variants=(v,))
   if quick:
-    static += gen.all_static(3, seed=seed, variants=(0,), canonical=True)     # 1000 classes
-    static += gen.all_static(3, seed=seed + 1, limit=500, variants=(0, 1, 2))
+    static += gen.all_static(3, seed=seed, variants=(0,), canonical=True, floods="one")     # 1000 classes
+    static += gen.all_static(3, seed=seed + 1, limit=400, variants=(0, 1, 2))
     static += gen.all_static(4, seed=seed, limit=100) + gen.all_static(5, seed=seed, limit=30)
   else:
     for v in (0, 1, 2):
@@ -420,12 +464,11 @@ def run(ctx):
   run_and_validate(ctx, "implementation", static + hist + tsc, shards)
   phase["run_and_validate"] = tm.take()
   ctx.notes["bounds"] = dict(static=("all 16 multigraphs on 2 switches x 3 bring-up orders; 3 switches: " +
-                                     ("all 1000 classes modulo swapping parallel cables + 500 sampled labelled ones"
+                                     ("all 1000 classes modulo swapping parallel cables (flood probe from one switch) + 400 sampled labelled ones"
                                       if quick else "all 4096 labelled multigraphs x 3 bring-up orders") +
                                      "; %d / %d sampled on 4 / 5 switches" % ((100, 30) if quick else (4000, 600))),
                              dynamic="%d random histories (<=5 switches) + %d (<=12 switches) + TLC-simulated ones"
                              % (nh, nb))
-  ctx.exhaustive = False
 
 
 def replay_one(ctx, rep):
